@@ -15,12 +15,23 @@ import (
 	"verif/uni"
 )
 
-// Signatures of input classes on which the unchanged tree is known to violate the property (see
-// FINDINGS.md). Everything else uses "C04/<op>/<clause>".
+// Signatures of the input classes on which the unchanged tree violates the property (triaged:
+// replayed, reduced to a standalone program against the public API — see FINDINGS.md). Everything
+// else uses "C04/<op>/<clause>".
 const (
+	// A key generated with EvaluationKeyParameters{LevelP: -1} on parameters that have a P (key
+	// generation, gadget ciphertext and ModDown all handle LevelP=-1) makes
+	// gadgetProductSinglePAndBitDecompLazy call params.PiOverflowMargin(-1) = slices.Max(pi[:0]): panic.
 	sigLevelPMinus1 = "C04/GadgetProduct/key-LevelP=-1-on-parameters-with-P/panic(PiOverflowMargin)"
-	sigNoPNoBase2   = "C04/GadgetProduct/no-P,BaseTwoDecomposition=0/wrong-result"
-	sigDigitCount   = "C04/GadgetProduct/BaseTwoDecomposition-digit-count-uses-rounded-log2(q)/top-bit-of-residue-dropped"
+	// No P and BaseTwoDecomposition=0 (the default key on parameters without P):
+	// gadgetProductSinglePAndBitDecompLazy calls DecomposeAndSplit(levelQ, -1, nbPi = levelP+1 = 0, i, ..)
+	// whose lvlQStart = i·nbPi = 0: every RNS digit is taken from prime 0. Wrong result (error ≈ Q) for
+	// every ciphertext level ≥ 1, silently.
+	sigNoPNoBase2 = "C04/GadgetProduct/no-P,BaseTwoDecomposition=0/wrong-result"
+	// BaseTwoDecompositionVectorSize allots ceil(round(log2 q_i)/b) digits: for a prime just above a
+	// power of two (bit length = round(log2)+1) and b | round(log2 q_i) the digits cover one bit less
+	// than the residues need; residues ≥ 2^(digits·b) lose their top bit in the key switch.
+	sigDigitCount = "C04/GadgetProduct/BaseTwoDecomposition-digit-count-uses-rounded-log2(q)/top-bit-of-residue-dropped"
 )
 
 // digitsTooFew: BaseTwoDecompositionVectorSize allots ceil(round(log2 q_i)/b) digits of b bits to
@@ -66,6 +77,51 @@ func ksScenario(rt ring.Type, logN int, ch rk.Chain, bound int) engine.Scenario 
 		isNTT := c.Choose(2, "IsNTT") == 0
 		inPlace := c.Bool("inPlace")
 		top := c.Bool("operand")
+		if knownKS(p, kp, level) != "" {
+			c.Skip(skipKnown)
+			return
+		}
+		runKS(c, name, p, op, kp, level, isNTT, inPlace, top)
+	}}
+}
+
+// skipKnown: a finding must not mask other violations (the engine keeps at most 200 violating leaves
+// per worker): input classes with a known defect are judged, with their own signature, on the
+// representative leaves of known/* and skipped everywhere else.
+const skipKnown = "input class with a known defect, judged in known/*"
+
+// knownScenario: representative leaves of the three key-switch input classes on which the unchanged
+// tree violates the property (FINDINGS.md); same bodies and oracles as ks/* and auto/*.
+func knownScenario(rt ring.Type, logN int, ch rk.Chain, class string) engine.Scenario {
+	name := fmt.Sprintf("known/%s/logN%d/%s", ringName(rt), logN, ch.Name)
+	return engine.Scenario{Name: name, Bound: -1, Fn: func(c *engine.Chooser) {
+		p := rk.Params(ch.Lit(logN, maxLogN, rt, true, nil, nil))
+		kp := keyParams{levelQ: p.MaxLevelQ(), levelP: -1}
+		top := false
+		switch class {
+		case sigDigitCount:
+			kp.levelP, kp.base2, top = 0, []int{1, 2, 30}[c.ChooseFree(3, "base2")], true
+		case sigNoPNoBase2, sigLevelPMinus1:
+			kp.base2 = []int{0, 16}[c.ChooseFree(2, "base2")] // base 16: control for the no-P class
+		}
+		level := kp.levelQ - c.ChooseFree(2, "ctLevel")
+		isNTT := c.ChooseFree(2, "IsNTT") == 0
+		k := knownKS(p, kp, level)
+		if k == "" {
+			k = "none(control)"
+		}
+		c.Cover("known-class", k)
+		if op := c.ChooseFree(len(ksOps)+1, "op"); op < len(ksOps) {
+			runKS(c, name, p, op, kp, level, isNTT, false, top)
+		} else {
+			runAuto(c, name, p, 0, p.GaloisElement(1), kp, level, isNTT, false, top)
+		}
+	}}
+}
+
+func runKS(c *engine.Chooser, name string, p rlwe.Parameters, op int, kp keyParams, level int, isNTT, inPlace, top bool) {
+	rt := p.RingType()
+	{
 		c.Cover("operand", map[bool]string{false: "uniform", true: "top-of-range"}[top])
 		cfg := fmt.Sprintf("%s %s ctLevel=%d IsNTT=%v inPlace=%v top=%v", ksOps[op], kp, level, isNTT, inPlace, top)
 		c.Note("%s", cfg)
@@ -213,7 +269,7 @@ func ksScenario(rt ring.Type, logN int, ch rk.Chain, bound int) engine.Scenario 
 			return
 		}
 		judge(c, sig("phase"), cfg, rt, rQ, out, sOut, want, bnd)
-	}}
+	}
 }
 
 var autoOps = []string{"Automorphism", "AutomorphismHoisted", "AutomorphismHoistedLazy+ModDown"}
@@ -245,6 +301,17 @@ func autoScenario(rt ring.Type, logN int, ch rk.Chain, bound int) engine.Scenari
 		isNTT := c.Choose(2, "IsNTT") == 0
 		inPlace := c.Bool("inPlace")
 		top := c.Bool("operand")
+		if knownKS(p, kp, level) != "" && !(galEl == 1 && autoOps[op] != "AutomorphismHoistedLazy+ModDown") {
+			c.Skip(skipKnown)
+			return
+		}
+		runAuto(c, name, p, op, galEl, kp, level, isNTT, inPlace, top)
+	}}
+}
+
+func runAuto(c *engine.Chooser, name string, p rlwe.Parameters, op int, galEl uint64, kp keyParams, level int, isNTT, inPlace, top bool) {
+	rt := p.RingType()
+	{
 		c.Cover("operand", map[bool]string{false: "uniform", true: "top-of-range"}[top])
 		cfg := fmt.Sprintf("%s galEl=%d %s ctLevel=%d IsNTT=%v inPlace=%v top=%v", autoOps[op], galEl, kp, level, isNTT, inPlace, top)
 		c.Note("%s", cfg)
@@ -346,7 +413,7 @@ func autoScenario(rt ring.Type, logN int, ch rk.Chain, bound int) engine.Scenari
 			return
 		}
 		judge(c, sig("phase"), cfg, rt, rQ, out, s, want, bnd)
-	}}
+	}
 }
 
 var _ = ringqp.Poly{}
